@@ -175,6 +175,30 @@ def run(ctx, eng):
                node=lst[0][2].node)
     ctx.record('push_refusal_sites', len(sites))
     ctx.floor('push_refusal_sites', 1)
+    # whether HEADERS open a stream is decided on the table as it stands:
+    # counting the open streams also forgets the closed ones, and a stream we
+    # have just reset would then look new (and be held against the limit)
+    fh = eng.m.func(H + '_receive_headers_frame')
+    bad = []
+    n = 0
+    for p in eng.I.run(fh):
+        cnt = [i for i, e in enumerate(p.events) if e.kind == 'call' and
+               e.get('is_prop') and e.frame == fh.qual and
+               cm.ev_callee_names(e) & {'open_inbound_streams',
+                                        'open_outbound_streams'}]
+        if not cnt:
+            continue
+        n += 1
+        mem = [i for i, e in enumerate(p.events) if e.kind == 'assume' and
+               'in self.streams)' in cm.show0(e.cond)]
+        if not mem or mem[0] > cnt[0]:
+            bad.append('the open streams are counted (and the closed ones '
+                       'forgotten) before the frame\'s stream is looked for in '
+                       'the table')
+    ctx.ob('ORD.membership-first', fh.qual, 'the stream is looked up before '
+           'closed streams are forgotten', n > 0 and not bad,
+           '; '.join(sorted(set(bad))) or '`stream_id in self.streams` '
+           'precedes the count on all %d counting paths' % n, node=fh.node)
     check_push_leniency(ctx, eng)
     # ---- (c) DATA refill
     fi = eng.m.func(H + '_receive_data_frame')
